@@ -533,7 +533,7 @@ class Data(object):
                     elif isinstance(field, verif.field.Quantile):
                         I = np.where(np.isclose(input.quantiles, field.quantile))[0]
                         if len(I) == 0 or self.dim_agg_length is not None:
-                            if input.ensemble is None:
+                            if input.ensemble is None or input.ensemble.shape[-1] == 0:
                                 verif.util.error("%s does not contain '%s'" % (self._inputs[i].name, field.name()))
                             num_members = input.ensemble.shape[-1]
                             if field.quantile < get_lower_cdf(num_members) or field.quantile > get_upper_cdf(num_members):
